@@ -24,6 +24,7 @@ Directive reference
   //@@ rewrite <rule> [count N|all]  then a `//@@- old` line and a `//@@+ new` line
   //@@ keepattrs                 do not drop attributes / doc comments
   //@@ nocanary                  no `ensures false` twin for this fn
+  //@@ splitchain                R17: `for P in A.chain(B) {BODY}` => two loops with the verbatim body
   //@@ sigonly                   keep only the signature (body replaced by `;`-less
                                  external_body stub: `{ unimplemented!() }`)
 
@@ -241,6 +242,63 @@ class OText:
         return out
 
 
+def split_chain(ot, log, what):
+    """R17: `for P in A.chain(B) { BODY }` => `for P in A { BODY } for P in B { BODY }` (both copies are the
+    verbatim body text; Verus has no specification for core::iter::Chain)."""
+    n = 0
+    while True:
+        tk = tokenize(ot.s)
+        hit = None
+        for i, t in enumerate(tk):
+            if not (t.kind == "id" and t.text == "for") or tk[i + 1].text == "<":
+                continue
+            j = i + 1
+            while j < len(tk) and not (tk[j].kind == "id" and tk[j].text == "in"):
+                j += 1
+            dep, k = 0, j + 1
+            while k < len(tk):
+                tx = tk[k].text
+                if tk[k].kind == "punct":
+                    if tx in "([":
+                        dep += 1
+                    elif tx in ")]":
+                        dep -= 1
+                    elif tx == "{" and dep == 0:
+                        break
+                k += 1
+            if k >= len(tk):
+                continue
+            dep, c = 0, None
+            for m in range(j + 1, k):
+                tx = tk[m].text
+                if tk[m].kind == "punct" and tx in "([":
+                    dep += 1
+                elif tk[m].kind == "punct" and tx in ")]":
+                    dep -= 1
+                elif dep == 0 and tx == "." and tk[m + 1].text == "chain" and tk[m + 2].text == "(":
+                    c = m
+            if c is None or match_close(tk, c + 2) != k - 1:
+                continue
+            hit = (i, j, k, c)
+            break
+        if hit is None:
+            break
+        i, j, k, c = hit
+        close = k - 1
+        bc = match_close(tk, k)
+        pat = ot.s[tk[i + 1].start:tk[j].start].strip()
+        a_txt = ot.s[tk[j + 1].start:tk[c].start].strip()
+        b_txt = ot.s[tk[c + 3].start:tk[close].start].strip()
+        body = ot.s[tk[k].start:tk[bc].end]
+        old = ot.s[tk[i].start:tk[k].start].strip()
+        ot.replace(tk[i].start, tk[bc].end, f"for {pat} in {a_txt} {body}\n for {pat} in {b_txt} {body}")
+        n += 1
+        log.append({"rule": "R17 split a chained iteration into two consecutive loops with the same (verbatim) body",
+                    "before": old + " { BODY }", "after": f"for {pat} in {a_txt} {{ BODY }} for {pat} in {b_txt} {{ BODY }}", "count": 1})
+    if n == 0:
+        raise WeaveError(f"{what}: splitchain: no `for .. in A.chain(B)` loop found")
+
+
 DROP_ATTR = re.compile(
     r"^\s*#\[(inline(\(\w+\))?|doc\(hidden\)|cfg_attr\(.*|derive\(.*\)|must_use|allow\(.*\)|non_exhaustive|error\(.*\)|br\(.*\))\]\s*$")
 
@@ -304,7 +362,9 @@ def weave_item(hdr, subs, stats):
     opts = {d["op"] for d in subs}
     if "keepattrs" not in opts:
         strip_attrs(ot, log)
-    # 1. rewrites
+    # 1. rewrites (structural rule R17 first, so that the textual rules can name the two loops it produces)
+    if "splitchain" in opts:
+        split_chain(ot, log, what)
     for d in subs:
         if d["op"] != "rewrite":
             continue
@@ -475,6 +535,15 @@ def weave_item(hdr, subs, stats):
         loops = []
         for li in loop_toks:
             dep, j = 0, li + 1
+            if toks[li].text == "for":
+                # the pattern may contain braces (`for Field { id, ty } in fs`): the body opens after `in`
+                pd = 0
+                while j < body_close and not (pd == 0 and toks[j].kind == "id" and toks[j].text == "in"):
+                    if toks[j].kind == "punct" and toks[j].text in "([{":
+                        pd += 1
+                    elif toks[j].kind == "punct" and toks[j].text in ")]}":
+                        pd -= 1
+                    j += 1
             while j < body_close:
                 tx = toks[j].text
                 if toks[j].kind == "punct":
@@ -858,7 +927,7 @@ def parse_template(path, seen=None):
                         subs.append({"op": op, "name": rest.strip()})
                     elif op == "attr":
                         subs.append({"op": "attr", "text": rest})
-                    elif op in ("keepattrs", "nocanary", "sigonly"):
+                    elif op in ("keepattrs", "nocanary", "sigonly", "splitchain"):
                         subs.append({"op": op})
                     else:
                         raise WeaveError(f"{path}:{i+1}: unknown directive {op}")
